@@ -47,7 +47,13 @@ func (t *Timer) Set(dur time.Duration, cb func()) error {
 	if err == nil {
 		// TODO error checking here
 		t.slot.Set(ReadEvent, func(error) {
-			_, _ = syscall.Read(t.fd, t.b[:])
+			_, err := syscall.Read(t.fd, t.b[:])
+			if err == syscall.EAGAIN {
+				// The timer did not expire: this is a stale event of a previous schedule which was cancelled and
+				// re-armed in the same poll cycle. Keep waiting.
+				_ = t.poller.SetRead(&t.slot)
+				return
+			}
 			cb()
 		})
 		err = t.poller.SetRead(&t.slot)
